@@ -214,13 +214,16 @@ Proof.
     + apply (wf_t2l _ W); auto.
 Qed.
 
-(* ------------------------------------------------------------------ link (to a template with slots) *)
+(* ------------------------------------------------------------------ link *)
 Lemma ps_link_WF s tmpl new env s' :
-  WF s -> (forall t, alookup tmpl (ps_templates s) = Some t -> t_is_static t = false) ->
-  ps_link s tmpl new env = OOk s' -> WF s'.
+  WF s -> ps_link s tmpl new env = OOk s' -> WF s'.
 Proof.
-  intros W Hns H. unfold ps_link in H.
+  intros W H. unfold ps_link in H.
   destruct (alookup tmpl (ps_templates s)) as [t|] eqn:ET; [|discriminate].
+  assert (Hns : forall t0, Some t = Some t0 -> t_is_static t0 = false).
+  { intros t0 E0. inversion E0; subst t0. destruct (t_is_static t) eqn:St; [|reflexivity]. exfalso.
+    pose proof (wf_static_tpl _ W _ _ ET St) as HL. apply amem_true in HL. rewrite HL in H. discriminate H. }
+  destruct (t_is_static t && amem tmpl (ps_links s)); [discriminate|].
   destruct (check_binding t env) eqn:EB; cbn in H; [|discriminate].
   destruct (amem new (ps_links s)) eqn:EL; [discriminate|].
   destruct (amem new (ps_templates s)) eqn:EN; [discriminate|].
@@ -389,11 +392,10 @@ Proof.
   intros [W P T] H. unfold api_link in H.
   destruct (alookup tmpl (a_templates a)) as [t0|] eqn:EA; [|destruct (amem tmpl (a_policies a)); discriminate].
   destruct (ps_link (a_ast a) tmpl new env) as [s'|] eqn:E; [|discriminate].
-  assert (Hns : forall t, alookup tmpl (ps_templates (a_ast a)) = Some t -> t_is_static t = false).
-  { intros t Ht. rewrite T, Ht in EA. destruct (t_is_static t); [discriminate|reflexivity]. }
-  pose proof (ps_link_WF _ _ _ _ _ W Hns E) as W'.
+  pose proof (ps_link_WF _ _ _ _ _ W E) as W'.
   unfold ps_link in E.
   destruct (alookup tmpl (ps_templates (a_ast a))) as [t|] eqn:ET; [|discriminate].
+  destruct (t_is_static t && amem tmpl (ps_links (a_ast a))); [discriminate|].
   destruct (check_binding t env); cbn in E; [|discriminate].
   destruct (amem new (ps_links (a_ast a))); [discriminate|].
   destruct (amem new (ps_templates (a_ast a))); [discriminate|].
@@ -520,12 +522,11 @@ Qed.
 Definition CoreInv (h : hstate) : Prop := WF (a_ast (h_api h)) /\ Forall good_policy (h_stash h).
 
 (* the operations on which ast::PolicySet keeps the invariant: no slot-less template is added as a
-   template, no link is made to a slot-less template (the body of a static policy), no template-linked
-   policy object is re-added through `add`, no merge (not proved) *)
+   template, no template-linked policy object is re-added through `add`, no merge (not proved).
+   Since 3c064e2 `link` needs no precondition: it refuses the body of a static policy itself. *)
 Definition core_ok (h : hstate) (o : op) : Prop :=
   match o with
   | OpAddTemplate t => t_is_static t = false
-  | OpLink tmpl _ _ => forall t, alookup tmpl (ps_templates (a_ast (h_api h))) = Some t -> t_is_static t = false
   | OpAddStashed _ => forall p, In p (h_stash h) -> plink p = None
   | OpMergeApi _ _ | OpMergeAst _ _ => False
   | _ => True
@@ -573,13 +574,25 @@ Proof.
 Qed.
 
 (* without the precondition the faithful model (and ast::PolicySet) loses the invariant:
-   add_static s; link s -> n (no slots, no values); remove_static s  leaves link n without its template *)
-Definition wit_s : template := mkTemplate [115%N] [] Permit CAny AAny CAny None.
-Definition wit_ops : list op := [OpAdd wit_s; OpLink [115%N] [110%N] []; OpRemoveStatic [115%N]].
+   add_template t; link t -> x; unlink x; add_template x; add(the unlinked policy object x)
+   makes x both a template and a template-linked policy (`add` checks `links` only) *)
+Definition wit_u : uid := mkUid [[85%N]] [97%N].
+Definition wit_t (i : str) : template := mkTemplate i [] Permit (CEq RefSlot) AAny CAny None.
+Definition wit_ops : list op :=
+  [OpAddTemplate (wit_t [116%N]); OpLink [116%N] [120%N] [(SlotPrincipal, wit_u)]; OpUnlink [120%N];
+   OpAddTemplate (wit_t [120%N]); OpAddStashed 0].
 Lemma core_WF_refuted : ~ WF (a_ast (h_api (run_ops ast_step wit_ops empty_h))).
 Proof.
   intros W.
-  assert (E : alookup [110%N] (ps_links (a_ast (h_api (run_ops ast_step wit_ops empty_h))))
-              = Some (mkPolicy wit_s (Some [110%N]) [])) by (vm_compute; reflexivity).
-  destruct (wf_link _ W _ _ E) as [_ [B _]]. vm_compute in B. discriminate B.
+  assert (E : alookup [120%N] (ps_links (a_ast (h_api (run_ops ast_step wit_ops empty_h))))
+              = Some (mkPolicy (wit_t [116%N]) (Some [120%N]) [(SlotPrincipal, wit_u)])) by (vm_compute; reflexivity).
+  assert (N : alookup [120%N] (ps_templates (a_ast (h_api (run_ops ast_step wit_ops empty_h)))) <> None)
+    by (vm_compute; discriminate).
+  pose proof (wf_disj _ W _ _ E N) as X. discriminate X.
 Qed.
+
+(* since 3c064e2 the former witness (link against the body of a static policy) is refused *)
+Lemma link_static_body_refused s t new env :
+  alookup (tid t) (ps_templates s) = Some t -> t_is_static t = true -> amem (tid t) (ps_links s) = true ->
+  ps_link s (tid t) new env = OErr ENoSuchTemplate.
+Proof. intros HT St HL. unfold ps_link. rewrite HT, St, HL. reflexivity. Qed.
